@@ -2078,3 +2078,42 @@ def frame_situation(R, framevar, opcode, fin, extra=None):
         except Exception:
             return None
     return ev
+
+
+def sized_truth(R, RID, modules=None):
+    """No branch is decided by the truth value of an object whose class defines __len__ / __bool__ (a Frame is false
+    when its payload is empty): such a test was meant as `is not None` / "any fragments pending" and gives the wrong
+    answer for empty payloads."""
+    sized = set(q for q, c in R.prog.classes.items() if any(m in c.methods for m in ('__len__', '__bool__', '__nonzero__')))
+    n_tests = 0
+    seen = set()
+    for key, cx in sorted(R.types.ctxs.items(), key=lambda kv: str(kv[0])):
+        fi = cx.func
+        if fi.module.name.startswith('examples') or (fi.cls is not None and cx.recv != fi.cls.qual):
+            continue
+        if modules and fi.module.name not in modules:
+            continue
+        if not any(isinstance(x, (ast.If, ast.While, ast.IfExp, ast.BoolOp, ast.Assert)) or
+                   (isinstance(x, ast.UnaryOp) and isinstance(x.op, ast.Not)) for x in own_nodes(fi.node)):
+            continue
+        g = R.cfg(fi.qual, cx.recv)
+        for n in g.live_nodes():
+            if n.kind != 'test':
+                continue
+            n_tests += 1
+            e = n.ast
+            while isinstance(e, ast.UnaryOp) and isinstance(e.op, ast.Not):
+                e = e.operand
+            if not isinstance(e, (ast.Name, ast.Attribute)):
+                continue
+            tys = R.types.expr(e, g.ctx)
+            hit = sorted(t[5:] for t in tys if isinstance(t, str) and t.startswith('inst:') and t[5:] in R.prog.classes
+                         and any(k in sized for k in R.prog.mro(t[5:])))
+            if hit and (fi.qual, U(n.ast)) not in seen:
+                seen.add((fi.qual, U(n.ast)))
+                R.ob(RID, 'no truth test on a sized object in %s' % fi.qual, False,
+                     '`%s` tests the truth value of a %s, which is its length (an object with an empty payload is false): '
+                     'a pending / present object is taken for absent' % (U(n.ast), '/'.join(hit)), func=fi, node=n.ast,
+                     construct='truth test of %s in %s' % (U(e), fi.qual))
+    R.ob(RID, 'truth tests scanned', n_tests >= 100, '%d branch tests scanned, classes with a length: %s' % (n_tests, sorted(sized)),
+         func=None, node=None, construct='sized truth scan')
